@@ -119,8 +119,29 @@ func c17(args []string) error {
 				cs.seqs[a] = string(b)
 			}
 		}
+		longPair := r.Intn(24) == 0
+		if longPair {
+			// two long, nearly identical rows whose few differences are rare exchanges: the per-pair
+			// probabilities P_ij(d) are tiny and the maximiser is a small distance
+			L = []int{1500, 3000, 1500}[r.Intn(3)]
+			anc = []byte(strings.Repeat("ARNDCQEGHILKMFPSTWYV", L/20))
+			L = len(anc)
+			other := append([]byte{}, anc...)
+			for q := 0; q < 1+r.Intn(2); q++ {
+				pr := []string{"CW", "DW", "MW", "CK", "NC", "CQ", "CE", "WC", "FC"}[r.Intn(9)]
+				pos := strings.IndexByte("ARNDCQEGHILKMFPSTWYV", pr[0]) + 20*r.Intn(L/20)
+				other[pos] = pr[1]
+			}
+			cs.names = []string{"long1", "long2"}
+			cs.seqs = []string{string(anc), string(other)}
+			nrows = 2
+			allGapped = false
+		}
 		cs.model = r.Intn(7)
 		cs.modelfreqs = r.Intn(2) == 0
+		if longPair {
+			cs.modelfreqs = true
+		}
 		cs.gamma = r.Intn(3) == 0
 		cs.alpha = []dyadic{{1, 2}, {1, 1}, {2, 1}, {3, 4}}[r.Intn(4)]
 		cs.rmgaps = r.Intn(3) == 0 || (allGapped && r.Intn(2) == 0)
